@@ -745,8 +745,8 @@ def _normalise_hook(f: FuncInfo, drop_producer: bool) -> str:
 # --------------------------------------------------------------------------------- R4
 def rule_r4(ctx):
     repo = ctx.repo
-    # (i) stores of a non-None producer
-    for f in repo.all_funcs():
+    # (i) stores of a non-None producer (a helper that only exists as a part of its callers is examined there)
+    for f in repo.live(repo.all_funcs()):
         for w in field_writes(f):
             if w.field != "_producer" or w.kind != "store":
                 continue
